@@ -4,6 +4,7 @@ import (
 	"fmt"
 	"io"
 	"net/http"
+	"sort"
 
 	"github.com/DemoHn/Zn/pkg/common"
 	"github.com/DemoHn/Zn/pkg/exec"
@@ -51,26 +52,30 @@ func buildIncomingRequestBody(req *http.Request) (runtime.Element, error) {
 	return value.NewString(string(body)), nil
 }
 
-func buildIncomingRequest(r *http.Request) (runtime.Element, error) {
-	headerDict := value.NewEmptyHashMap()
-	for k, v := range r.Header {
-		if len(v) > 0 {
-			headerDict.AppendKVPair(value.KVPair{
-				Key:   k,
-				Value: value.NewString(v[0]),
-			})
-		}
+// buildDictFromValues - build a hashmap from headers / query params (first value of each
+// key); keys are added in sorted order to yield a reproducible hashmap
+func buildDictFromValues(values map[string][]string) *value.HashMap {
+	keys := make([]string, 0, len(values))
+	for k := range values {
+		keys = append(keys, k)
 	}
+	sort.Strings(keys)
 
-	qsDict := value.NewEmptyHashMap()
-	for k, v := range r.URL.Query() {
-		if len(v) > 0 {
-			qsDict.AppendKVPair(value.KVPair{
+	dict := value.NewEmptyHashMap()
+	for _, k := range keys {
+		if v := values[k]; len(v) > 0 {
+			dict.AppendKVPair(value.KVPair{
 				Key:   k,
 				Value: value.NewString(v[0]),
 			})
 		}
 	}
+	return dict
+}
+
+func buildIncomingRequest(r *http.Request) (runtime.Element, error) {
+	headerDict := buildDictFromValues(r.Header)
+	qsDict := buildDictFromValues(r.URL.Query())
 
 	body, err := buildIncomingRequestBody(r)
 	if err != nil {
